@@ -65,6 +65,11 @@ def _js(v):
         return s if len(s) < 600 else s[:600] + "..."
 
 
+def lib_short(x, n=400):
+    s_ = repr(x)
+    return s_ if len(s_) <= n else s_[: n - 3] + "..."
+
+
 def load_check(prop):
     return importlib.import_module(f"vmon.checks.{prop.lower()}")
 
@@ -143,7 +148,24 @@ def prime(mod, case, prop, tier):
     return True
 
 
-def run_one(mod, case, prop, tier, S):
+def trace_hashes(trace):
+    return [hashlib.sha1(repr(ev).encode()).hexdigest()[:12] for ev in trace]
+
+
+def fresh_trace(prop, tier, case):
+    """the same case in a fresh interpreter (nothing ran before it): list of per-call hashes, or None"""
+    import subprocess
+
+    try:
+        p = subprocess.run([sys.executable, "-B", "-m", "vmon.tracecase", prop, tier], input=json.dumps(case), capture_output=True, text=True, timeout=600)
+        if p.returncode != 0:
+            return None
+        return json.loads(p.stdout.strip().splitlines()[-1])
+    except Exception:
+        return None
+
+
+def run_one(mod, case, prop, tier, S, allow_trace=True):
     """run one case under the monitors; returns (ctx, internal_error or None)"""
     from . import attach
 
@@ -151,9 +173,12 @@ def run_one(mod, case, prop, tier, S):
     ctx = Ctx(prop, tier)
     if primed:
         ctx.count("primed_by_float_twin")
+    every = getattr(mod, "TRACE_EVERY", 23)
+    traced = allow_trace and every and int(case_digest(case), 16) % every == 1 and os.environ.get("VERIF_TRACE", "1") == "1"
     attach.reset_steps()
     attach.drain_violations()
     err = None
+    attach.S.trace = [] if traced else None
     try:
         mod.run_case(case, ctx)
     except Exception:
@@ -162,6 +187,24 @@ def run_one(mod, case, prop, tier, S):
         if type(e).__name__ != "StepBudgetExceeded":
             raise
         err = "StepBudgetExceeded escaped the check: " + traceback.format_exc(limit=6)
+    trace, attach.S.trace = attach.S.trace, None
+    if traced and err is None and trace is not None:
+        # history-independence monitor: every value the public API returned during this case (which ran after many other
+        # cases in this process) must be bit-identical to what a fresh interpreter returns for the same case
+        mine = trace_hashes(trace)
+        other = fresh_trace(prop, tier, case)
+        if other is None:
+            ctx.count("history_monitor_unavailable")
+        else:
+            ctx.count("history_monitor_cases")
+            ctx.counters["history_monitor_calls_compared"] += len(mine)
+            if mine != other["hashes"]:
+                k = next((i for i, (a, b) in enumerate(zip(mine, other["hashes"])) if a != b), min(len(mine), len(other["hashes"])))
+                ev = trace[k] if k < len(trace) else ("<missing>", "", "", None)
+                ctx.violation(f"history-dependent:{ev[0]}", f"call #{k} ({ev[0]} -> {ev[1]}) returned another value (or left another state) in this process than in a fresh interpreter: the result depends on what ran before",
+                              here=lib_short(ev[2:]), fresh=other["events"][k] if k < len(other["events"]) else None, calls=(len(mine), len(other["hashes"])))
+            else:
+                ctx.compared()
     for v in attach.drain_violations():
         if v["kind"] == "monitor-error":
             err = (err or "") + f"\nmonitor error {v}"
